@@ -82,6 +82,22 @@ def handle (args : List String) : String :=
           "init=" ++ joinOr (o.initBlocks.map (renderBlock false)) ++ ";fn=" ++
             joinOr (o.funcLabels.map fun f => s!"{f.1}#{f.2}"))
     | _, _ => "bad-op"
+  | ["fhist", lib, root, calls, n] =>
+    -- failing compilation (n function instances done), good one, failing one, good one - on one Compiler
+    match n.toNat?, parseLib lib with
+    | some n, some lib =>
+      match getPkg lib root with
+      | none => "bad-op"
+      | some m =>
+        let prog : Prog String := { main := m, mainFuncs := [root], calls := listOf calls }
+        let c1 := runHistory strLe lib Cache.empty [.failing prog n]
+        let r1 := compile strLe lib c1 prog
+        let c2 := runHistory strLe lib r1.2 [.good prog, .failing prog n]
+        let r2 := compile strLe lib c2 prog
+        "/".intercalate ([r1.1, r2.1].map fun o =>
+          "init=" ++ joinOr (o.initBlocks.map (renderBlock false)) ++ ";fn=" ++
+            joinOr (o.funcLabels.map fun f => s!"{f.1}#{f.2}"))
+    | _, _ => "bad-op"
   | _ => "bad-op"
 
 end Drv.C08
